@@ -54,6 +54,11 @@ func (np *Processor) processNewEpoch(ev netmapEvent.NewEpoch) {
 		return bytes.Equal(i1.PublicKey(), i2.PublicKey())
 	})
 
+	if mapChanged && !np.alphabetState.IsAlphabet() {
+		l.Debug("non alphabet mode, do not update placements in Container contract")
+		mapChanged = false
+	}
+
 	if mapChanged {
 		l.Debug("updating placements in Container contract...")
 		err = np.updatePlacementInContract(*networkMap, epoch, l)
